@@ -167,6 +167,34 @@ def check(run, ctx):
                     run.finding(L7, f.qual.replace("src.", "", 1), f"regex-over-node-text:{norm(n)[:50]}", f"{f.qual}: `{norm(n)[:80]}` searches the source text of a whole node: words inside comments and string literals count like code, so a directive-free comment that mentions a name changes what the rule concludes", f"{m.rel}:{n.lineno}")
     run.require(n_ts >= 10, f"L7: only {n_ts} tree-sitter analyzer modules found")
     run.require(n_l7 >= 1, "L7: no sibling walk / last-child test found (positive control: rust_context._preceding_attributes)")
+    # ---------------------------------------------------------------- L8
+    L8 = run.rule("L8", "the multi-line-import skip state of the DRY tokenisers is threaded unchanged through lines that carry no token: a wrapper of should_skip_import_line returns as new state its state parameter or the state that call returned, never a constant", floor=2,
+                  decides="a blank or comment-only line inserted inside a parenthesised import does not end the skip state (the remaining names would be hashed as code)")
+    n_l8 = 0
+    for f in sorted(repo.funcs.values(), key=lambda x: x.qual):
+        if not f.module.name.startswith("src.linters.dry") or f.parent is not None:
+            continue
+        calls = [c for c in ast.walk(f.node) if isinstance(c, ast.Call) and call_name(c) == "should_skip_import_line" and len(c.args) >= 2 and isinstance(c.args[1], ast.Name)]
+        params = {a.arg for a in f.node.args.args}
+        calls = [c for c in calls if c.args[1].id in params]
+        if not calls:
+            continue
+        state = calls[0].args[1].id
+        derived = {state}
+        for a in ast.walk(f.node):
+            if isinstance(a, ast.Assign) and a.value in calls and isinstance(a.targets[0], ast.Tuple) and a.targets[0].elts and isinstance(a.targets[0].elts[0], ast.Name):
+                derived.add(a.targets[0].elts[0].id)
+        for r in [r for r in ast.walk(f.node) if isinstance(r, ast.Return) and isinstance(r.value, ast.Tuple) and r.value.elts]:
+            n_l8 += 1
+            e = r.value.elts[0]
+            sym = f"{f.qual.replace('src.', '', 1)}:{r.lineno - f.node.lineno}"
+            if isinstance(e, ast.Name) and e.id in derived:
+                run.ok(L8, sym, f"returns state `{e.id}`")
+            elif isinstance(e, ast.Subscript) and isinstance(e.value, ast.Call) and e.value in calls:
+                run.ok(L8, sym, "returns the state should_skip_import_line computed")
+            else:
+                run.finding(L8, f.qual.replace("src.", "", 1), f"state-reset:{norm(r)[:50]}", f"{f.qual}: `{norm(r)[:70]}` returns `{norm(e)}` as the new skip state instead of `{state}`: a blank or comment-only line inside `from x import (` ... `)` ends the import, and the names after it are hashed as code - inserting such a line creates duplicate-code reports", f"{f.module.rel}:{r.lineno}")
+    run.require(n_l8 >= 4, f"L8: only {n_l8} state-returning exits found in the DRY line filters (python and typescript analyzers)")
     return __doc__
 
 
